@@ -4,7 +4,7 @@ SPEC = {
     "coq_targets": ["theories/Sync/Props.vo", "theories/Sync/Findings.vo", "theories/Sync/Cases.vo"],
     "props": "theories/Sync/Props.v",
     "harness": [{"bin": "h_sync", "n": {"quick": 320, "thorough": 4000}, "known_bits": {}}],
-    "rule": "runs of the real MultiPathManager under real tokio runtimes (current-thread: every observation checked; multi-thread: mutex-ordered and causally ordered observations checked, lock-free reads trusted) with 0-12 concurrent path_wait/cached_path/path_timeout callers, scripted fetcher (paths/empty/not-found/error, yields and delays), idle-timeout removal, refetch cycles, stop_managing_paths, manager drop, seeded schedule perturbation at 8 pause points; families: directed scenarios, a sweep of the moment of stop_managing_paths against scripted slowness of callers/worker, a systematic sweep of the yield vector at the pause points on the current-thread runtime (no sleeps: the schedule is a function of the code), random scenarios; each run = one case (linearised trace of atomic steps, returned values, handle views after the end); non-trivial = more than 3 trace events; distinct by full trace text (distinct_schedules / distinct_outcome_multisets are in input_distribution)",
+    "rule": "runs of the real MultiPathManager under real tokio runtimes (current-thread: every observation checked; multi-thread: mutex-ordered and causally ordered observations checked, lock-free reads trusted) with 0-12 concurrent path_wait/cached_path/path_timeout callers, scripted fetcher (paths/empty/not-found/error, yields and delays), idle-timeout removal, refetch cycles, stop_managing_paths, manager drop, seeded schedule perturbation at 8 pause points; families: directed scenarios (among them: a failed lookup and its retry after the failure backoff -- callers before the first lookup, during it, between failure and retry, during the retry, for retry outcomes ok/empty/error, also two failed lookups in a row; a worker that exits before any lookup because the manager is dropped before its first poll, its handle view checked afterwards; callers arriving during a worker's idle exit), a sweep of the moment of stop_managing_paths against scripted slowness of callers/worker, a systematic sweep of the yield vector at the pause points on the current-thread runtime (no sleeps: the schedule is a function of the code), random scenarios; each run = one case (linearised trace of atomic steps, returned values, handle views after the end); non-trivial = more than 3 trace events; distinct by full trace text (distinct_schedules / distinct_outcome_multisets are in input_distribution)",
     "assumptions": [
         "tokio 1.52.3: a Notified future receives notify_waiters() from its creation on (documented guarantee, quoted in Sync/Model.v); std Mutex gives mutual exclusion; scc HashIndex entry_sync/remove_sync are atomic per key, removed values are dropped later",
         "the fetcher's future terminates and neither it nor the worker code between the locked blocks panics (explicit premise of the liveness theorems: the step LFetched; a worker that panics never runs its exit block and its callers wait forever; one such panic site, earliest_expiry().expect(..) in fetch_and_update, is removed by the C06 repair in the working tree)",
@@ -14,6 +14,7 @@ SPEC = {
     ],
     "trusted_extra": [
         "tokio runtime (scheduler, Notify, time), std::sync::Mutex, scc::HashIndex, arc-swap, tokio-util CancellationToken",
+        "the harness moves the wall clock of its own process (its definition of clock_gettime adds an offset to CLOCK_REALTIME) to get past the 60-300 s failure backoff, and wakes the worker's select loop with an issue report for a foreign AS (public SendErrorReceiver)",
         "verif-hooks trace callback (crates/scion-stack/src/path/manager/verif_trace.rs and the single cfg lines calling it): events inside a critical section are logged while the lock is held",
     ],
 }
